@@ -24,15 +24,28 @@ FR = real_frames(6)
 class Obj:
     def __init__(s,t): s.t=t
     def __repr__(s): return f"<Obj {s.t}>"
-def mk_error():
+class FalsyObj(Obj):
+    """a manager / root / leaf that answers False to bool() (container-like, empty)"""
+    def __len__(s): return 0
+    def __repr__(s): return f"<FalsyObj {s.t}>"
+def mk_error(kind=None):
+    """raised (has a traceback, multi-line message) | never raised (no traceback at all) | chained (raise ... from ...)"""
+    kind = kind or random.choice(["raised", "raised", "never-raised", "chained"])
     def boom(): raise ValueError("boom\nsecond line of message")
+    if kind == "never-raised":
+        return RuntimeError("made, never raised")
+    if kind == "chained":
+        try:
+            try: boom()
+            except ValueError as e: raise KeyError("outer") from e
+        except KeyError as e2: return e2
     try: boom()
     except ValueError as e: return e
 def rnd_stack(depth, as_child=False):
     nfr = random.choice([0,1,2]) if depth>0 else random.choice([0,1])
     frames=[rnd_frame(depth) for _ in range(nfr)]
-    return Stack(root=random.choice([None,Obj('root')]), frames=frames,
-                 leaf=random.choice([None,None,Obj('leaf')]), error=random.choice([None,None,None,mk_error()]))
+    return Stack(root=random.choice([None,Obj('root'),Obj('root'),FalsyObj('root'),0,""]), frames=frames,
+                 leaf=random.choice([None,None,Obj('leaf'),FalsyObj('leaf')]), error=random.choice([None,None,None,mk_error()]))
 def rnd_frame(depth):
     f=Frame(pyframe=random.choice(FR), hide=random.random()<0.2, hide_line=random.random()<0.2)
     nctx = random.choice([0,0,1,2]) if depth>0 else 0
@@ -40,7 +53,7 @@ def rnd_frame(depth):
     if f.contexts and random.random()<0.3: f.contexts[-1].is_exiting=True
     return f
 def rnd_ctx(depth):
-    c=Context(obj=random.choice([None,Obj('mgr')]), is_async=random.random()<0.5,
+    c=Context(obj=random.choice([None,Obj('mgr'),Obj('mgr'),FalsyObj('mgr')]), is_async=random.random()<0.5,
               varname=random.choice([None,'x','a.b[0]']), start_line=random.choice([None, 5, 12]),
               description=random.choice([None,'desc(...)']), hide=random.random()<0.15)
     if depth>0:
@@ -77,8 +90,11 @@ def shape_ctx(c,o):
             sc=shape_ctx(ch,o)
             if sc is not None: kids.append(('child',)+sc[1:])
         else:
-            kids.append(('child', tuple(shape_stack_body(ch,o)), ()))
-    return ('ctx', inner, tuple(kids))
+            kids.append(('child', tuple(shape_stack_body(ch,o)), (), None))
+    # what the first line says about the manager: "<varname or _>: <type name>" iff there is an obj, the bare varname iff there
+    # is none but a name, nothing otherwise (so with / without obj can be told apart when reading the text back)
+    info = (f"{c.varname or '_'}: {type(c.obj).__name__}" if c.obj is not None else (c.varname if c.varname is not None else ""))
+    return ('ctx', inner, tuple(kids), info)
 
 # ---- decoder
 M = dict(sf="╠ ", cf="║ ", leaf="╚ ", sc="├ ", cc="│ ", scc="├─", ind="─ ", code="└ ")
@@ -93,8 +109,12 @@ def parse_stack_body(lines):
             out.append(parse_frame(blk))
         elif l.startswith(M['leaf']): out.append(('leaf',)); i+=1
         elif l.startswith("  Error while extracting stack:"):
+            # the error block is the last thing a stack prints: everything up to the end of this body belongs to it
+            # (a chained error contains blank separator lines), each line indented by two spaces
             i+=1
-            while i<len(lines) and lines[i].startswith("  ") and lines[i].strip(): i+=1
+            while i<len(lines):
+                if not lines[i].startswith("  "): raise ValueError(("error block line without indent", lines[i]))
+                i+=1
             out.append(('error',))
         else: raise ValueError(("stack body?", l))
     return out
@@ -114,8 +134,10 @@ def parse_ctx(cl):
     # cl[0] own line; then inner-stack body lines until first child indicator; then children
     i=1; inner=[]
     while i<len(cl) and not cl[i].startswith(M['ind']):
-        if cl[i].strip()=="" : break       # blank line before a child task stack
         inner.append(cl[i]); i+=1
+    # a blank line directly before the first child is the separator in front of a child task stack, not part of the inner stack
+    # (blank lines INSIDE the inner stack's error block - chained errors - are followed by more error text, not by a child)
+    while inner and inner[-1].strip()=="" and i<len(cl): inner.pop()
     kids=[]
     while i<len(cl):
         l=cl[i]
@@ -129,7 +151,7 @@ def parse_ctx(cl):
         while sub and sub[-1].strip()=="": sub.pop()
         k=parse_ctx(sub)
         kids.append(('child',)+k[1:])
-    return ('ctx', tuple(parse_stack_body(inner)), tuple(kids))
+    return ('ctx', tuple(parse_stack_body(inner)), tuple(kids), parse_info(cl[0]))
 
 
 # ---- expected shape (marker-level tree)
@@ -158,8 +180,11 @@ def shape_ctx(c,o):
             sc=shape_ctx(ch,o)
             if sc is not None: kids.append(('child',)+sc[1:])
         else:
-            kids.append(('child', tuple(shape_stack_body(ch,o)), ()))
-    return ('ctx', inner, tuple(kids))
+            kids.append(('child', tuple(shape_stack_body(ch,o)), (), None))
+    # what the first line says about the manager: "<varname or _>: <type name>" iff there is an obj, the bare varname iff there
+    # is none but a name, nothing otherwise (so with / without obj can be told apart when reading the text back)
+    info = (f"{c.varname or '_'}: {type(c.obj).__name__}" if c.obj is not None else (c.varname if c.varname is not None else ""))
+    return ('ctx', inner, tuple(kids), info)
 
 # ---- decoder
 M = dict(sf="╠ ", cf="║ ", leaf="╚ ", sc="├ ", cc="│ ", scc="├─", ind="─ ", code="└ ")
@@ -174,8 +199,12 @@ def parse_stack_body(lines):
             out.append(parse_frame(blk))
         elif l.startswith(M['leaf']): out.append(('leaf',)); i+=1
         elif l.startswith("  Error while extracting stack:"):
+            # the error block is the last thing a stack prints: everything up to the end of this body belongs to it
+            # (a chained error contains blank separator lines), each line indented by two spaces
             i+=1
-            while i<len(lines) and lines[i].startswith("  ") and lines[i].strip(): i+=1
+            while i<len(lines):
+                if not lines[i].startswith("  "): raise ValueError(("error block line without indent", lines[i]))
+                i+=1
             out.append(('error',))
         else: raise ValueError(("stack body?", l))
     return out
@@ -195,8 +224,10 @@ def parse_ctx(cl):
     # cl[0] own line; then inner-stack body lines until first child indicator; then children
     i=1; inner=[]
     while i<len(cl) and not cl[i].startswith(M['ind']):
-        if cl[i].strip()=="" : break       # blank line before a child task stack
         inner.append(cl[i]); i+=1
+    # a blank line directly before the first child is the separator in front of a child task stack, not part of the inner stack
+    # (blank lines INSIDE the inner stack's error block - chained errors - are followed by more error text, not by a child)
+    while inner and inner[-1].strip()=="" and i<len(cl): inner.pop()
     kids=[]
     while i<len(cl):
         l=cl[i]
@@ -210,7 +241,25 @@ def parse_ctx(cl):
         while sub and sub[-1].strip()=="": sub.pop()
         k=parse_ctx(sub)
         kids.append(('child',)+k[1:])
-    return ('ctx', tuple(parse_stack_body(inner)), tuple(kids))
+    return ('ctx', tuple(parse_stack_body(inner)), tuple(kids), parse_info(cl[0]))
+
+
+import re as _re
+def parse_info(first_line):
+    """the '<name>: <Type>' / '<name>' part of a context's first line (None for a child task stack's root line)"""
+    if "  # " not in first_line:
+        return "" if ("with " in first_line or "desc(" in first_line or ":" in first_line) else None
+    comment = first_line.rsplit("  # ", 1)[1].rstrip("\n")
+    return _re.sub(r"\s*\(line \d+\)$", "", comment).strip()
+
+
+def norm_shape(x):
+    """child task stacks carry no manager info: compare them with info None on both sides"""
+    if isinstance(x, tuple) and x and x[0] == 'child' and len(x) == 4 and x[3] is None:
+        return ('child', norm_shape(x[1]), x[2], None)
+    if isinstance(x, tuple):
+        return tuple(norm_shape(y) for y in x)
+    return x
 
 
 def has_ctx(s):
@@ -237,6 +286,18 @@ def ctx_tags(c, o, acc):
         if isinstance(ch, Context): ctx_tags(ch, o, acc)
         else: visible_tags(ch, o, acc)
 
+def exp_header(s):
+    return f"stackscope.Stack of {s.root!r} (most recent call last):\n" if s.root is not None else "stackscope.Stack (most recent call last):\n"
+def exp_error_lines(err):
+    """every line of the error's rendering by the traceback module, minus its 'Traceback (most recent call last):' banners, indented"""
+    out = ["  Error while extracting stack:\n"]
+    for chunk in traceback.format_exception(type(err), err, err.__traceback__):
+        if chunk == "Traceback (most recent call last):\n": continue
+        out += ["  " + l for l in chunk.splitlines(True)]
+    return out
+def info_of(c):
+    if c.obj is not None: return f"{c.varname or '_'}: {type(c.obj).__name__}"
+    return c.varname if c.varname is not None else ""
 def summ_stack(s, show_contexts, show_hidden, cl):
     out = []
     for f in s.frames:
@@ -251,7 +312,7 @@ def summ_frame_ctx(f, show_hidden, cl):
     return out
 def summ_ctx(c, parent, show_hidden, cl):
     if c.hide and not show_hidden: return []
-    info = c._name_and_type()
+    info = info_of(c)
     out = [(parent.filename, c.start_line or parent.lineno, parent.funcname + (f" ({info})" if info else ""), cl)]
     if c.inner_stack is not None: out += summ_stack(c.inner_stack, True, show_hidden, cl)
     for ch in c.children:
@@ -265,6 +326,11 @@ for t in range(N):
     for a, sc, sh in itertools.product([False, True], repeat=3):
         leg.case((shape_key, a, sc, sh), has_ctx(s), sample=dict(tree=shape_key[:160], opts=[a, sc, sh]) if len(leg.samples) < 3 and has_ctx(s) and len(shape_key) < 200 else None)
         key = f"tree#{t}:{a}{sc}{sh}"
+        try:
+            s.format(ascii_only=a, show_contexts=sc, show_hidden_frames=sh); str(s)
+            s.as_stdlib_summary(show_contexts=sc, show_hidden_frames=sh, capture_locals=a); s.format_flat(show_contexts=sc)
+        except Exception as e:
+            leg.violation(key, f"formatting / summarising a Stack raised {e!r} (error kind: {type(s.error).__name__ if s.error else None})"); continue
         if PROP == "C18":
             o = dict(ascii_only=a, show_contexts=sc, show_hidden_frames=sh)
             lines = s.format(**o)
@@ -295,17 +361,17 @@ for t in range(N):
             except Exception as e:
                 leg.violation(key, f"summary does not pickle: {e!r}")
             flat = s.format_flat(show_contexts=sc)
-            expf = [s._format_header()]
+            expf = [exp_header(s)]
             if s.frames: expf += s.as_stdlib_summary(show_contexts=sc).format()
             if s.leaf is not None: expf.append(f"  Target of innermost frame: {s.leaf!r}\n")
-            if s.error is not None: expf += list(s._format_error())
+            if s.error is not None: expf += exp_error_lines(s.error)
             if flat != expf:
                 leg.violation(key, "format_flat != header + StackSummary.format() + leaf + error")
 if PROP == "C19":
     # recursion: >= 4 consecutive identical entries must be collapsed exactly as traceback does
     rs = Stack(root=None, frames=[Frame(pyframe=FR[0]) for _ in range(7)])
     leg.case("recursion", True)
-    if rs.format_flat() != [rs._format_header()] + rs.as_stdlib_summary().format():
+    if rs.format_flat() != [exp_header(rs)] + rs.as_stdlib_summary().format():
         leg.violation("recursion", "format_flat of a recursive stack is not header + StackSummary.format()")
     if not any("Previous line repeated" in l for l in rs.format_flat()):
         leg.violation("recursion", "format_flat lost traceback's repeated-line collapsing")
@@ -324,8 +390,11 @@ if PROP == "C18":
     inner = Stack(root=Obj("task"), frames=[Frame(pyframe=FR[1])], error=mk_error())
     c1 = Context(obj=Obj("m"), is_async=True, description="nursery", inner_stack=inner, children=[Stack(root=Obj("child"), frames=[Frame(pyframe=FR[2])], error=mk_error())])
     st = Stack(root=None, frames=[Frame(pyframe=FR[0], contexts=[c1])], error=mk_error())
-    lines = st.format()
     leg.case("nested-errors", True)
+    try:
+        lines = st.format()
+    except Exception as e:
+        leg.violation("nested-errors", f"format() of a Stack with nested errors raised {e!r}"); lines = []
     if not all(l.endswith("\n") and l.count("\n") == 1 for l in lines):
         leg.violation("nested-errors", "an error block inside a nested stack yields multi-line elements")
     o = dict(ascii_only=False, show_contexts=True, show_hidden_frames=False)
